@@ -83,3 +83,29 @@ Example c16_never_initiated_instance :
      AOwner; AOwner; AMSend; AOwner; AOwner; AMRecvStep; AOwner; AOwner; AU 0] = Some x /\
   ts (shd x) = TClosed /\ map urets (uths x) = [[(UStop, 0%N)]; [(UClose, 1%N)]].
 Proof. eexists. split; [vm_compute; reflexivity|]. vm_compute. auto. Qed.
+
+(* FIN carries the next frame number: for any sequence of writes and closes on the sender, the FIN's
+   frame number is one more than the number of data frames, every data frame number is below it,
+   and nothing is numbered after it (with C08's in-order reassembly, EOF follows all data) *)
+Theorem c16_fin_after_data : forall l, let s := snd_run l in
+  finSent s = true ->
+  (finNo s = N.of_nat (length (datas s)) + 1 /\ (forall f, In f (datas s) -> 1 <= f < finNo s) /\ frameNo s = finNo s + 1)%N.
+Proof. exact fin_after_data. Qed.
+Print Assumptions c16_fin_after_data.
+
+(* the tube state graph used by the trace checker (Corr/CorrC16.v) is exactly the reachable-edge
+   relation of the model: every run moves tubeState along a path of [tedge] (any state, any actors),
+   and every edge of [tedge] is taken by a single transition from a reachable state *)
+From Hop Require Import ShutdownEdges.
+Theorem c16_state_graph_exact :
+  (forall x l x', run x l = Some x' -> treach 4 (ts (shd x)) (ts (shd x')) = true) /\
+  (forall a b, tedge a b = true -> realised a b).
+Proof. split; [exact run_edges|exact edges_realised]. Qed.
+Print Assumptions c16_state_graph_exact.
+
+(* a FIN that waited in the reorder heap is consumed by the data frame that fills the gap (a packet
+   WITHOUT the FIN flag): the state machine still moves initiated -> closeWait / finWait1 -> closing *)
+Example c16_fin_from_heap :
+  ts (fst (receive (sh_init true false) (mkF false ANone false true true))) = TCloseWait /\
+  ts (fst (receive (fst (do_close (sh_init true false))) (mkF false ANone false true true))) = TClosing.
+Proof. split; vm_compute; reflexivity. Qed.
